@@ -8,7 +8,7 @@
     written over that graph and the arena-free tree denotation [Types.unfold].
 
     Statements only; proofs in proofs/Convert{Proofs,Frame,Tree,Entity}.v. *)
-From WacV Require Import Str Types Convert ConvertSpec ConvertProofs ConvertFrame ConvertTree ConvertEntity.
+From WacV Require Import Str Types Convert ConvertSpec ConvertProofs ConvertFrame ConvertTree ConvertEntity ConvertCache.
 
 (** 1. The world lists exactly the component's imports and exports: same names, same order, item-wise the right
     kind; the instance type of the package is the export list.  (The hypotheses are the validator's guarantee that
@@ -44,15 +44,33 @@ Theorem lists_exactly_b_implies : forall g t p, lists_exactly_b g t p = true -> 
 Proof. exact lists_exactly_b_sound. Qed.
 Print Assumptions lists_exactly_b_implies.
 
-(** 3.-5. Stated, not proved; their executable forms are evaluated on every implementation observation by the
-    correspondence ([walk_package], [ids_one_to_one_b], [resources_agree_b], [expected_uses] / [uses_agree_b]).
+(** 3. Cache consistency (model level).  Assume the validator's type graph is well founded ([ranked]: a rank that
+    decreases along every reference — a type does not contain itself).  Then
+    (a) every conversion step keeps the cache free of duplicate keys and retains every earlier entry unchanged
+        ([later]): the cache is never overwritten;
+    (b) whatever a conversion of a validator entity returned is exactly what ANY later conversion of the same entity
+        returns, and that later conversion changes nothing: the same validator identifier always yields the same wac
+        identifier (functions, defined types, instance types, component types, module types, resources).
+    That distinct identifiers with equal trees yield tree-equal types is a corollary of 2. on the resource-free
+    fragment (both unfold to the one tree).
 
-    convert_cache_consistent :
-      forall ... from_graph hfuel fuel g t0 = COk (p, t) -> exists evs,
-        walk_package g t ufuel p = Some evs /\ ids_one_to_one evs
-      (the joint traversal of the validator graph and the converted world succeeds, the same validator identifier
-       is always met with the same wac identifier, and distinct validator identifiers with distinct ones; that
-       distinct identifiers with equal trees convert to tree-equal types is a corollary of 2.)
+    Not proved: the converse direction observed by the correspondence ([ids_one_to_one_b]: distinct validator
+    identifiers get distinct wac identifiers) and the success of the joint traversal [walk_package]. *)
+Theorem convert_cache_consistent : forall g rk, ranked g rk ->
+  (forall hfuel fuel n e s k s',
+     inv s -> c_entity hfuel fuel g n e s = COk (k, s') -> inv s' /\ later s s') /\
+  (forall hfuel fuel fuel' n n' e s k s1 s2,
+     c_entity (S hfuel) fuel g n e s = COk (k, s1) -> later s1 s2 ->
+     c_entity (S hfuel) (S fuel') g n' e s2 = COk (k, s2)).
+Proof.
+  intros g rk HR. split.
+  - intros hfuel fuel n e s k s'. exact (entity_later g rk HR hfuel fuel n e s k s').
+  - intros hfuel fuel fuel' n n' e s k s1 s2. exact (entity_twice g hfuel fuel fuel' n n' e s k s1 s2).
+Qed.
+Print Assumptions convert_cache_consistent.
+
+(** 4.-5. Stated, not proved; their executable forms are evaluated on every implementation observation by the
+    correspondence ([walk_package], [ids_one_to_one_b], [resources_agree_b], [expected_uses] / [uses_agree_b]).
 
     use_synthesis_spec :
       ... -> expected_uses hfuel g (sites_of evs) [] [] = Some l /\ uses_agree t l
@@ -83,14 +101,21 @@ Definition ex_graph : vgraph :=
           (NDef (WDResult None (Some (WPrim PU32))), None) ]                            (* 5 *)
         [(n_abc, EInstance 0)] [(n_t, EType 2 2)] [n_abc])%nat.
 
-Example convert_nonvacuous :
-  exists p t w,
-    from_graph 20 20 ex_graph ex_empty = COk (p, t) /\ get_world t (pk_ty p) = Some w /\
-    map fst (w_imports w) = [n_abc] /\ map fst (w_exports w) = [n_t] /\
-    option_map (unfold 20 t) (option_map snd (hd_error (w_imports w))) =
-    Some (spec_tree 20 ex_graph (EInstance 0%nat)) /\
-    spec_tree 20 ex_graph (EInstance 0%nat) =
-    Some (XInst [(n_r, XTValue (VTRecord [(n_a, VTPrim PU8); (n_b, VTOption (VTPrim PString))]));
-                 (n_f, XFunc (mkft [(n_x, VTRecord [(n_a, VTPrim PU8); (n_b, VTOption (VTPrim PString))])]
-                                   (Some (VTResult None (Some (VTPrim PU32)))) false))]).
-Proof. vm_compute. do 3 eexists. repeat split. Qed.
+Definition ex_expected (r : cres (package * types)) : Prop :=
+  match r with
+  | COk (p, t) =>
+    match get_world t (pk_ty p) with
+    | Some w =>
+      map fst (w_imports w) = [n_abc] /\ map fst (w_exports w) = [n_t] /\
+      option_map (unfold 20 t) (option_map snd (hd_error (w_imports w))) =
+      Some (spec_tree 20 ex_graph (EInstance 0%nat)) /\
+      spec_tree 20 ex_graph (EInstance 0%nat) =
+      Some (XInst [(n_r, XTValue (VTRecord [(n_a, VTPrim PU8); (n_b, VTOption (VTPrim PString))]));
+                   (n_f, XFunc (mkft [(n_x, VTRecord [(n_a, VTPrim PU8); (n_b, VTOption (VTPrim PString))])]
+                                     (Some (VTResult None (Some (VTPrim PU32)))) false))])
+    | None => False
+    end
+  | _ => False
+  end.
+Example convert_nonvacuous : ex_expected (from_graph 20 20 ex_graph ex_empty).
+Proof. vm_compute. repeat split. Qed.
